@@ -148,6 +148,16 @@ impl Value {
     }
 }
 
+/// Deadline for a TTL that starts now. A TTL beyond the range of the monotonic clock
+/// saturates about a century ahead instead of panicking on overflow.
+pub fn deadline_after(expires_in: Duration) -> Instant {
+    let now = Instant::now();
+    match now.checked_add(expires_in) {
+        Some(deadline) => deadline,
+        None => now + Duration::from_secs(100 * 365 * 24 * 60 * 60),
+    }
+}
+
 impl ValueMetadata {
     /// Create new metadata for a value
     pub fn new() -> Self {
@@ -164,7 +174,7 @@ impl ValueMetadata {
     pub fn with_expiration(expires_in: Duration) -> Self {
         let now = Instant::now();
         ValueMetadata {
-            expires_at: Some(now + expires_in),
+            expires_at: Some(deadline_after(expires_in)),
             created_at: now,
             last_accessed: now,
             encoding: StringEncoding::Raw,
@@ -185,7 +195,7 @@ impl ValueMetadata {
     
     /// Set expiration time
     pub fn set_expiration(&mut self, expires_in: Duration) {
-        self.expires_at = Some(Instant::now() + expires_in);
+        self.expires_at = Some(deadline_after(expires_in));
     }
     
     /// Clear expiration
